@@ -187,20 +187,36 @@ Fixpoint ae_agrees (st : av) (ops : list aop) : bool :=
     else ae_agrees o tl
   end.
 
-(* the contract, judged on the observations alone: Set(nil) is ignored and does not panic; a Set of
-   ANY non-nil interface value - typed nils included - of the stored concrete type does not panic,
-   and that very value is what Load returns until the next such Set; a fresh AtomicError loads nil.
-   [cur] = what Load has to return now.  (A Store of another concrete type is sync/atomic's own
-   panic: cannot happen in mr - one Set per call - and is not judged.) *)
-Fixpoint ae_prop (cur : av) (ops : list aop) : bool :=
+(* the contract that mr relies on, judged on the observations alone - weaker than the model on purpose
+   (which Set wins among several is not part of it: mr's once lets one Set in per call):
+   Set(nil) is ignored and does not panic; a Set of ANY non-nil interface value - typed nils
+   included - of the stored concrete type does not panic; Load returns nil iff nothing but nil was
+   ever Set, and otherwise - by identity - one of the non-nil values Set so far; in particular after
+   exactly one such Set, that very value.
+   [l] = the non-nil values Set so far; [cur] = the value Set / observed last, used only to tell
+   whether a Store is of another concrete type (sync/atomic's own panic: cannot happen in mr and is
+   not judged). *)
+Definition load_ok (l : list dyn) (o : goerr) : bool :=
+  match l with
+  | [] => is_nil_iface o
+  | _ => existsb (fun d => goerr_eqb o (Some d)) l
+  end.
+Fixpoint dyns (vs : list goerr) : list dyn :=
+  match vs with
+  | [] => []
+  | Some d :: tl => d :: dyns tl
+  | None :: tl => dyns tl
+  end.
+
+Fixpoint ae_prop (cur : av) (l : list dyn) (ops : list aop) : bool :=
   match ops with
   | [] => true
-  | ASet None p :: tl => negb p && ae_prop cur tl
+  | ASet None p :: tl => negb p && ae_prop cur l tl
   | ASet (Some d) p :: tl =>
-    if same_type cur (Some d) then negb p && ae_prop (Some d) tl
-    else ae_prop (if p then cur else Some d) tl
-  | ALoad o :: tl => goerr_eqb o cur && ae_prop cur tl
+    if same_type cur (Some d) then negb p && ae_prop (Some d) (d :: l) tl
+    else if p then ae_prop cur l tl else ae_prop (Some d) (d :: l) tl
+  | ALoad o :: tl => load_ok l o && ae_prop cur l tl
   | AConc vs p o :: tl =>
-    if consistent cur vs then negb p && conc_allowed cur vs o && ae_prop o tl
-    else ae_prop o tl
+    if consistent cur vs then negb p && load_ok (dyns vs ++ l) o && ae_prop o (dyns vs ++ l) tl
+    else ae_prop o (match o with Some d => [d] | None => [] end) tl
   end.
